@@ -22,11 +22,15 @@ func main() {
 	out := fs.String("out", ".", "output directory")
 	replay := fs.String("replay", "", "replay/corpus file: run exactly these inputs")
 	tier := fs.String("tier", "quick", "quick|thorough")
-	_ = tier
+	kinds := fs.String("kinds", "0,1,2", "agg: aggregator kinds")
+	focus := fs.String("focus", "", "file with disagreeing cases to search around")
+	_ = focus
 	fs.Parse(os.Args[2:])
 	switch proj {
 	case "evmint":
 		cmdEvmint(*seed, *n, *out, *replay)
+	case "agg":
+		cmdAgg(*seed, *n, *out, *replay, *kinds, *tier)
 	default:
 		fmt.Fprintln(os.Stderr, "unknown projection", proj)
 		os.Exit(2)
